@@ -16,6 +16,7 @@ Template directives (a line whose first non-blank characters are `//@`):
       //@exit            following lines go right before the body's closing `}`
       //@loop <k>        following lines go between the k-th loop header and its `{`
       //@loopentry <k>   following lines go right after the k-th loop's `{`
+      //@loopexit <k>    following lines go right after the k-th loop's closing `}`
       //@closure <k> <header>   header replaces `|params|` of the k-th closure; its body is braced
       //@before <k> <token> [@after <pattern>]   (//@before? = skip silently when the anchor is absent; with @after, occurrences
                                 are counted from the first occurrence of <pattern>) following lines go before the k-th occurrence of <token> (if that is
@@ -429,10 +430,12 @@ def _recv_chain(toks, sg, k):
     """sg[k] is the `.` before a method name: return the index (into sg) of the first token of the receiver when it is a
     plain place expression `ident(.ident)*`, else None"""
     j = k - 1
-    if j < 0 or toks[sg[j]].kind != "ident":
+    if j < 0 or toks[sg[j]].kind not in ("ident", "num"):
         return None
-    while j - 2 >= 0 and toks[sg[j - 1]].text == "." and toks[sg[j - 2]].kind == "ident":
+    while j - 2 >= 0 and toks[sg[j - 1]].text == "." and toks[sg[j - 2]].kind in ("ident", "num"):
         j -= 2
+    if toks[sg[j]].kind != "ident":
+        return None
     if j - 1 >= 0 and toks[sg[j - 1]].text in (".", ")", "]", "?", "::"):
         return None
     return j
@@ -477,6 +480,106 @@ def _ghost_names(lines):
     names = set(re.findall(r"let\s+ghost\s+(?:mut\s+)?([A-Za-z_][A-Za-z0-9_]*)", txt))
     names |= set(re.findall(r"(?:proof\s*\{|;)\s*([A-Za-z_][A-Za-z0-9_]*)\s*=[^=]", txt))
     return names
+
+def rw_R23(rf, a, b):
+    """`for PAT in EXPR { .. }` -> the desugaring `{ let mut it = EXPR; loop { let PAT = match it.next() {
+    Some(v) => v, None => break }; .. } }` (this Verus has no `continue` in for-loops, and the contracts can then name the
+    iterator; applied to every `for` whose EXPR is already an iterator:
+    `.iter()`, `.iter_mut()`, `.into_iter()`, so that IntoIterator::into_iter is the identity)"""
+    toks, sg, out = rf.toks, _sig(rf.toks, a, b), []
+    n = 0
+    for k, i in enumerate(sg):
+        if toks[i].kind == "ident" and toks[i].text == "for" and (k == 0 or toks[sg[k - 1]].text in ("{", "}", ";")):
+            # pattern up to `in`
+            kin = None
+            depth = 0
+            for m in range(k + 1, len(sg)):
+                tx = toks[sg[m]].text
+                if tx in "([":
+                    depth += 1
+                elif tx in ")]":
+                    depth -= 1
+                elif tx == "in" and depth == 0 and toks[sg[m]].kind == "ident":
+                    kin = m
+                    break
+                elif tx in ("{", ";"):
+                    break
+            if kin is None:
+                continue
+            kopen = None
+            depth = 0
+            for m in range(kin + 1, len(sg)):
+                tx = toks[sg[m]].text
+                if tx in "([":
+                    depth += 1
+                elif tx in ")]":
+                    depth -= 1
+                elif tx == "{" and depth == 0:
+                    kopen = m
+                    break
+            if kopen is None:
+                continue
+            close = L.match_close(toks, sg[kopen])
+            expr = L.text(toks, sg[kin + 1], sg[kopen]).strip()
+            if not re.search(r"\.\s*(iter|iter_mut|into_iter)\s*\(\s*\)$", expr):
+                continue
+            pat = L.text(toks, sg[k + 1], sg[kin]).strip()
+            n += 1
+            it = "__it%d" % n
+            # the body's own `{` stays where it is, so that loop invariants spliced in front of it and loop-entry text spliced
+            # behind it land in the rewritten loop
+            out.append((Edit(i, sg[kopen], "{ let mut %s = %s; loop " % (it, expr), ("gen", "R23")),
+                        "R23 %s:%d `for %s in %s` -> desugared `loop` over `.next()` (iterator `%s`)" % (rf.rel, toks[i].line, pat, expr, it)))
+            out.append((Edit(sg[kopen] + 1, sg[kopen] + 1, " let %s = match %s.next() { Some(__v) => __v, None => break };" % (pat, it), ("gen", "R23"), order=-4), None))
+            out.append((Edit(close + 1, close + 1, " }", ("gen", "R23")), None))
+    return out
+
+
+def rw_R24(rf, a, b):
+    """float ordering and sorting go through contract-carrying wrappers (prelude/float.rs), same std call inside:
+    `<p>.sort_by(f)` -> verif_sort_by(&mut <p>, f, Ghost(key)); `<x.N>.partial_cmp(&<y.M>)` on tuple fields ->
+    verif_f32_partial_cmp(&x.N, &y.M); `<p>.is_nan()` -> verif_f32_is_nan(<p>)"""
+    toks, sg, out = rf.toks, _sig(rf.toks, a, b), []
+    for k, i in enumerate(sg):
+        t = toks[i]
+        # `<place> <= <float literal>` -> verif_f32_le(<place>, <literal>)
+        if t.kind == "num" and re.match(r"^[0-9][0-9_]*\.[0-9][0-9_]*(f32)?$", t.text) and k >= 3 \
+                and toks[sg[k - 1]].text == "=" and toks[sg[k - 2]].text == "<" and toks[sg[k - 3]].kind in ("ident", "num"):
+            j = k - 3
+            while j - 2 >= 0 and toks[sg[j - 1]].text == "." and toks[sg[j - 2]].kind in ("ident", "num"):
+                j -= 2
+            if toks[sg[j]].kind == "ident" and (j == 0 or toks[sg[j - 1]].text not in (".", ")", "]")):
+                recv = L.text(toks, sg[j], sg[k - 2]).strip()
+                out.append((Edit(sg[j], i + 1, "verif_f32_le(%s, %s)" % (recv, t.text), ("gen", "R24")), "R24 %s:%d `%s <= %s` -> verif_f32_le" % (rf.rel, t.line, recv, t.text)))
+            continue
+        if t.kind != "ident" or k == 0 or toks[sg[k - 1]].text != "." or k + 1 >= len(sg) or toks[sg[k + 1]].text != "(":
+            continue
+        if t.text == "sort_by":
+            j = _recv_chain(toks, sg, k - 1)
+            if j is None:
+                continue
+            recv = L.text(toks, sg[j], sg[k - 1]).strip()
+            close = L.match_close(toks, sg[k + 1])
+            out.append((Edit(sg[j], sg[k + 1] + 1, "verif_sort_by(&mut %s, " % recv, ("gen", "R24")), "R24 %s:%d `%s.sort_by(..)` -> verif_sort_by(.., ghost key)" % (rf.rel, t.line, recv)))
+            out.append((Edit(close, close, ", Ghost(|e| verif_sort_key(e))", ("gen", "R24"), order=3), None))
+        elif t.text == "is_nan" and toks[sg[k + 2]].text == ")":
+            j = _recv_chain(toks, sg, k - 1)
+            if j is None:
+                continue
+            recv = L.text(toks, sg[j], sg[k - 1]).strip()
+            out.append((Edit(sg[j], sg[k + 2] + 1, "verif_f32_is_nan(%s)" % recv, ("gen", "R24")), "R24 %s:%d `%s.is_nan()` -> verif_f32_is_nan" % (rf.rel, t.line, recv)))
+        elif t.text == "partial_cmp" and toks[sg[k - 2]].kind == "num" and toks[sg[k + 2]].text == "&":
+            j = _recv_chain(toks, sg, k - 1)
+            if j is None:
+                continue
+            recv = L.text(toks, sg[j], sg[k - 1]).strip()
+            close = L.match_close(toks, sg[k + 1])
+            arg = L.text(toks, sg[k + 2], close).strip()
+            if not re.match(r"^&\s*[A-Za-z_][A-Za-z0-9_]*(\s*\.\s*[A-Za-z0-9_]+)*$", arg):
+                continue
+            out.append((Edit(sg[j], close + 1, "verif_f32_partial_cmp(&%s, %s)" % (recv, arg), ("gen", "R24")), "R24 %s:%d `%s.partial_cmp(%s)` -> verif_f32_partial_cmp" % (rf.rel, t.line, recv, arg)))
+    return out
+
 
 def rw_R19(rf, a, b):
     """Box::new(Cursor::new(x)) / Box::new(io::empty()) as body readers -> verif_cursor(x) / verif_empty(): local opaque
@@ -569,7 +672,7 @@ def rw_R5b(rf, a, b):
     return out
 
 
-REWRITES = {"R5b": rw_R5b, "R21": rw_R21, "R8": rw_R8, "R22": rw_R22, "R3b": rw_R3b, "R20": rw_R20, "R19": rw_R19, "R18": rw_R18, "R2b": rw_R2b, "R15": rw_R15, "R2": rw_R2, "R7": rw_R7, "R3": rw_R3, "R1": rw_R1, "R4": rw_R4, "R5": rw_R5, "R10": rw_R10, "R13": rw_R13, "R14": rw_R14}
+REWRITES = {"R23": rw_R23, "R24": rw_R24, "R5b": rw_R5b, "R21": rw_R21, "R8": rw_R8, "R22": rw_R22, "R3b": rw_R3b, "R20": rw_R20, "R19": rw_R19, "R18": rw_R18, "R2b": rw_R2b, "R15": rw_R15, "R2": rw_R2, "R7": rw_R7, "R3": rw_R3, "R1": rw_R1, "R4": rw_R4, "R5": rw_R5, "R10": rw_R10, "R13": rw_R13, "R14": rw_R14}
 
 
 # --------------------------------------------------------------------------------------------
@@ -671,6 +774,7 @@ class FnSpec:
         self.exit = []
         self.loops = {}       # k -> lines
         self.loopentry = {}
+        self.loopexit = {}
         self.closures = {}    # k -> (header, tplline)
         self.closures_by_text = []
         self.before = []      # (k, token, lines)
@@ -874,6 +978,8 @@ class Unit:
                     cur = fs.exit
                 elif c == "loop":
                     cur = fs.loops.setdefault(int(d[1]), [])
+                elif c == "loopexit":
+                    cur = fs.loopexit.setdefault(int(d[1]), [])
                 elif c == "loopentry":
                     cur = fs.loopentry.setdefault(int(d[1]), [])
                 elif c == "closure":
@@ -1031,6 +1137,13 @@ class Unit:
                 raise Undecided("lost anchor: loop %d of %s" % (k, qual))
             lb = loops[k - 1][1]
             edits.append(Edit(lb + 1, lb + 1, "\n" + tpl_text(lines), ("tpl", relname, lines[0][1] - 1)))
+        for k, lines in fs.loopexit.items():
+            if k < 1 or k > len(loops):
+                if len(loops) == 0:
+                    continue
+                raise Undecided("lost anchor: loop %d of %s" % (k, qual))
+            lc = L.match_close(toks, loops[k - 1][1])
+            edits.append(Edit(lc + 1, lc + 1, "\n" + tpl_text(lines), ("tpl", relname, lines[0][1] - 1), order=-2))
         if fs.loops and len(loops) != max(fs.loops):
             # contracts were written for a different loop structure
             if loops and len(loops) != len(fs.loops) and len(loops) < max(fs.loops):
@@ -1051,6 +1164,9 @@ class Unit:
                     if nctx not in btext:
                         continue
                 hits.append(ci + 1)
+            if len(hits) > 1:
+                # nested closures: the text belongs to the innermost closure that contains it
+                hits = [h for h in hits if not any(o != h and cls[h - 1][0] < cls[o - 1][0] and cls[o - 1][3] <= cls[h - 1][3] for o in hits)]
             if len(hits) == 1:
                 fs.closures[hits[0]] = (hdr, lno)
             elif len(hits) > 1:
@@ -1383,6 +1499,8 @@ def count_clauses(fs):
     for _, _, v in fs.after:
         scan(v)
     for v in fs.loopentry.values():
+        scan(v)
+    for v in fs.loopexit.values():
         scan(v)
     for hdr, _ in fs.closures.values():
         if "ensures" in hdr:
